@@ -276,43 +276,60 @@ def arithDef (o : Opcode) (l r : TypeDef) (nanFallible : Bool) : TypeDef :=
   else if o == .sub then (l.union r).setFallible.withKind numKind
   else (l.union r).setFallible.withKind (Kind.bytes.orInteger.orFloat)
 
-/-- `Op::type_info`: `l` typed in the incoming state (giving `T1`), `r` typed in `T1` (giving `Tr`);
-    `lv` the constant of the lhs in the incoming state, `rv` the constant of the rhs in `T1`. -/
-def opInfo (o : Opcode) (l : TypeDef) (lv : Option Value) (T1 : TState) (r : TypeDef) (Tr : TState)
-    (rv : Option Value) : TypeDef × TState :=
+/-- the condition under which `Op::type_info` types `/` infallible: "the rhs is a literal normal
+    float or non-zero integer" and the lhs is exactly float or exactly integer -/
+def divInfallible (l : TypeDef) (rv : Option Value) : Bool :=
+  (l.kind.isFloat || l.kind.isInteger) &&
+  (match rv with
+   | some (.float b) => F64.isNormal b
+   | some (.int i) => i != 0
+   | _ => false)
+
+/-- `Op::type_info`, the result type: `l` typed in the incoming state, `r` typed in the state after
+    `l`; `lv` the constant of the lhs in the incoming state, `rv` the constant of the rhs in the state
+    after `l`. -/
+def opDef (o : Opcode) (l : TypeDef) (lv : Option Value) (r : TypeDef) (rv : Option Value) : TypeDef :=
   match o with
-  | .err =>
-    ((l.union r).maybeFallible (l.fallible && r.fallible), maybeRhs T1 Tr)
+  | .err => (l.union r).maybeFallible (l.fallible && r.fallible)
   | .or =>
     let l := l.upgradeUndefined
-    if l.kind.isNull || optValueEq lv (some (.bool false)) then (r, Tr)
-    else if !(l.kind.containsNull || l.kind.containsBoolean) || optValueEq lv (some (.bool true)) then (l, T1)
-    else ((l.withKind l.kind.withoutNull).union r, maybeRhs T1 Tr)
-  | .merge => (l.mergeOverwrite r, Tr)
+    if l.kind.isNull || optValueEq lv (some (.bool false)) then r
+    else if !(l.kind.containsNull || l.kind.containsBoolean) || optValueEq lv (some (.bool true)) then l
+    else (l.withKind l.kind.withoutNull).union r
+  | .merge => l.mergeOverwrite r
   | .and =>
-    if l.kind.isNull || optValueEq lv (some (.bool false)) then (TypeDef.boolean, T1)
-    else if optValueEq lv (some (.bool true)) then (r.withKind Kind.boolean, Tr)
-    else
-      (((l.fallibleUnless nullBool).union (r.fallibleUnless nullBool)).withKind Kind.boolean,
-       maybeRhs T1 Tr)
-  | .eq | .ne => ((l.union r).withKind Kind.boolean, Tr)
+    if l.kind.isNull || optValueEq lv (some (.bool false)) then TypeDef.boolean
+    else if optValueEq lv (some (.bool true)) then r.withKind Kind.boolean
+    else ((l.fallibleUnless nullBool).union (r.fallibleUnless nullBool)).withKind Kind.boolean
+  | .eq | .ne => (l.union r).withKind Kind.boolean
   | .gt | .ge | .lt | .le =>
     if (l.kind.isBytes && r.kind.isBytes) || (l.kind.isTimestamp && r.kind.isTimestamp) then
-      ((l.union r).withKind Kind.boolean, Tr)
-    else
-      (((l.fallibleUnless numKind).union (r.fallibleUnless numKind)).withKind Kind.boolean, Tr)
+      (l.union r).withKind Kind.boolean
+    else ((l.fallibleUnless numKind).union (r.fallibleUnless numKind)).withKind Kind.boolean
   | .div =>
-    -- the right operand's state changes are never applied; `TypeDef::float()` drops the operands'
-    -- fallibility and `returns`
-    let td := TypeDef.float
-    let infallible :=
-      (l.kind.isFloat || l.kind.isInteger) &&
-      (match rv with
-       | some (.float b) => F64.isNormal b
-       | some (.int i) => i != 0
-       | _ => false)
-    (if infallible then td else td.setFallible, T1)
-  | .add | .sub | .mul => (arithDef o l r (constNaN o lv rv), Tr)
+    -- `TypeDef::float()` drops the operands' fallibility and `returns`
+    if divInfallible l rv then TypeDef.float else TypeDef.float.setFallible
+  | .add | .sub | .mul => arithDef o l r (constNaN o lv rv)
+
+/-- `Op::type_info`, the state: `T1` after the lhs, `Tr` after the rhs typed in `T1`. -/
+def opState (o : Opcode) (l : TypeDef) (lv : Option Value) (T1 Tr : TState) : TState :=
+  match o with
+  | .err => maybeRhs T1 Tr
+  | .or =>
+    let l := l.upgradeUndefined
+    if l.kind.isNull || optValueEq lv (some (.bool false)) then Tr
+    else if !(l.kind.containsNull || l.kind.containsBoolean) || optValueEq lv (some (.bool true)) then T1
+    else maybeRhs T1 Tr
+  | .and =>
+    if l.kind.isNull || optValueEq lv (some (.bool false)) then T1
+    else if optValueEq lv (some (.bool true)) then Tr
+    else maybeRhs T1 Tr
+  | .div => T1     -- the right operand's state changes are never applied
+  | _ => Tr
+
+def opInfo (o : Opcode) (l : TypeDef) (lv : Option Value) (T1 : TState) (r : TypeDef) (Tr : TState)
+    (rv : Option Value) : TypeDef × TState :=
+  (opDef o l lv r rv, opState o l lv T1 Tr)
 
 /-! ### `Block::type_info` -/
 
